@@ -84,6 +84,9 @@ def run(ctx):
     # TRACE: seeded tracks at seeded resolutions
     cases = _notes.seeded_tracks(ctx, "C04", ctx.pick(400, 6000), flags_p=0.4)
     _notes._judge(ctx, cases, "C04", "seeded tracks", max_skip_ratio=0.01)
+    if ctx.tier == "thorough":
+        # bonus: round-half-even(resolution / 3) = (2*resolution + 3) div 6 for EVERY natural resolution (TLAPS)
+        ctx.tlaps("ThresholdLemma", "tlaps_ThresholdLemma")
     ctx.assumptions += [
         "a forced first note is outside the property's domain (the library rejects it with ValueError, see C18)",
         "the decision table is exhaustive per resolution; resolutions are a fixed small set plus seeded ones up to 10^6",
